@@ -385,7 +385,9 @@ def batch_spellings(ctx):
         if len(nodes) >= 2:
             groups.append((k, nodes))
     # integer parameters as numpy integers of every width
-    for it in (np.int8, np.uint8, np.int16, np.int32, np.uint32, np.int64, np.uint64):
+    for it in (np.int8, np.uint8, np.int16, np.uint16, np.int32, np.uint32, np.int64, np.uint64,
+               # distinct scalar TYPES of the same widths (dispatch by type name misses them)
+               np.longlong, np.ulonglong, np.intc, np.uintc, np.intp, np.uintp, np.short, np.byte):
         groups.append((f"numpy-integer-parameters:{it.__name__}", each(
             lambda: pt.roll(x, 1, 1), lambda: pt.roll(x, it(1), it(1)))))
         for nm, a, b in [
